@@ -273,13 +273,13 @@ class Interp:
             for s in self.ops.assume(st, c, True):
                 s.decide((fn.name, ins.line, 'true'))
                 if sig:
-                    self._sig(s, fn, blk, 'T')
+                    self._sig(s, fn, blk, 'T', cond=c)
                 self.flow_to(fn, blk.name, tg[0], s, pending, loopctx)
             c2 = self.ops.operand(s2, ins.ops[0][0], ins.ops[0][1])
             for s in self.ops.assume(s2, c2, False):
                 s.decide((fn.name, ins.line, 'false'))
                 if sig:
-                    self._sig(s, fn, blk, 'F')
+                    self._sig(s, fn, blk, 'F', cond=c2)
                 self.flow_to(fn, blk.name, tg[1], s, pending, loopctx)
             return
         if op == 'switch':
@@ -304,7 +304,7 @@ class Interp:
                 for s1 in outs:
                     s1.decide((fn.name, ins.line, 'case %d' % k))
                     if self.ctx.limits.get('sig'):
-                        self._sig(s1, fn, blk, 'c%d' % k)
+                        self._sig(s1, fn, blk, 'c%d' % k, cond=v)
                     self.flow_to(fn, blk.name, lb, s1, pending, loopctx)
                 r = self.ops.assume_lin(rest, 'ne', v.a, Aff(k))
                 if not r:
@@ -314,7 +314,7 @@ class Interp:
             if rest is not None:
                 rest.decide((fn.name, ins.line, 'default'))
                 if self.ctx.limits.get('sig'):
-                    self._sig(rest, fn, blk, 'dflt')
+                    self._sig(rest, fn, blk, 'dflt', cond=v)
                 self.flow_to(fn, blk.name, ins.attrs['default'], rest, pending, loopctx)
             return
         if op == 'ret':
@@ -327,10 +327,39 @@ class Interp:
             return
         raise AnalysisBroken('unmodelled terminator %s in %s' % (op, fn.name))
 
-    def _sig(self, st, fn, blk, d, idx=None):
+    def _sig(self, st, fn, blk, d, idx=None, cond=None):
         """decision signature of a path: (call-site chain, function, block, direction) per undecided branch taken"""
         chain = tuple((fr.fn.name, fr.callsite.loc() if fr.callsite is not None else '') for fr in st.frames[1:])
-        st.tags['sig'] = st.tags.get('sig', ()) + ((chain, fn.name, blk.name if idx is None else '%s#%d' % (blk.name, idx), (d, st.tags.pop('_piece', None))),)
+        deps = None
+        if cond is not None:
+            # which symbols the decided condition is about (by origin), through comparison definitions
+            deps = tuple(sorted(self._cond_origins(st, cond)))
+        st.tags['sig'] = st.tags.get('sig', ()) + ((chain, fn.name, blk.name if idx is None else '%s#%d' % (blk.name, idx),
+                                                    (d, st.tags.pop('_piece', None)), deps),)
+
+    def _cond_origins(self, st, v, depth=0):
+        out = set()
+        if not isinstance(v, Int) or depth > 6:
+            return {'?'}
+        if v.pred is not None:
+            p = v.pred
+            while p is not None and p[0] == 'not':
+                p = p[1]
+            if p is not None and p[0] == 'cmp':
+                for x in (p[2], p[3]):
+                    out |= self._cond_origins(st, x, depth + 1) if isinstance(x, Int) else {'?'}
+                return out
+        for s_ in v.a.t:
+            info = st.syminfo.get(s_)
+            if info is None:
+                out.add('?')
+            elif info.defn is not None and info.defn[0] in ('trunc', 'sext', 'zext') and hasattr(info.defn[1], 't'):
+                for z in info.defn[1].t:
+                    i2 = st.syminfo.get(z)
+                    out.add(i2.origin if i2 is not None else '?')
+            else:
+                out.add(info.origin)
+        return out
 
     # ---- instructions ------------------------------------------------------------------------------
     def exec_instr(self, st, ins):
